@@ -49,7 +49,7 @@ def dt0_adaptive(
     f0, _ = tree.ravel_pytree(f0)
 
     scale = atol + np.abs(y0) * rtol
-    d0, d1 = linalg.vector_norm(y0), linalg.vector_norm(f0)
+    d0, d1 = linalg.vector_norm(y0 / scale), linalg.vector_norm(f0 / scale)
 
     dt0 = np.where((d0 < 1e-5) | (d1 < 1e-5), 1e-6, 0.01 * d0 / d1)
 
